@@ -253,23 +253,19 @@ impl Walrus {
                     }
                 }
             } else {
-                // No persisted tail; init at the position already consumed in the current
-                // active block (0 when nothing of it was consumed yet). Persisting 0 here
-                // would durably rewind a cursor that an earlier read had advanced.
-                let init_off = if info.tail_block_id == active_block.id {
-                    info.tail_offset
-                } else {
-                    0
-                };
+                // No persisted tail. If this reader already tracks the active block in
+                // memory, continue from there and leave the durable cursor alone: persisting
+                // offset 0 here would rewind what earlier reads made durable (and, in
+                // AtLeastOnce mode, reset the persist_every counter on every call).
+                // Only a tail block seen for the first time is recorded at offset 0.
+                let already_tracking = info.tail_block_id == active_block.id;
+                let init_off = if already_tracking { info.tail_offset } else { 0 };
                 persisted_tail = Some((active_block.id, init_off));
-                if checkpoint {
+                if checkpoint && !already_tracking {
                     if self.should_persist(&mut info, true) {
                         if let Ok(mut idx_guard) = self.read_offset_index.write() {
-                            let _ = idx_guard.set(
-                                col_name.to_string(),
-                                active_block.id | TAIL_FLAG,
-                                init_off,
-                            );
+                            let _ =
+                                idx_guard.set(col_name.to_string(), active_block.id | TAIL_FLAG, 0);
                         }
                     }
                 }
